@@ -5,15 +5,20 @@
    evaluation and on re-evaluation.
    PROVED PART (C05_memo_transparent_partial): an operator that answers covered lookups from a memo and stores what it
    evaluates returns, over ANY history of lookups, exactly the uncached results — provided every stored entry is the
-   uncached result of its lookup (the contract).  MISSING: that the concrete index (IndexedCache + the five call sites of
-   symbolic.py) meets the contract.  Its retrieval half is REFUTED for the concrete index (Properties/C20.v,
-   C20_retrieve_refuted; known findings C20-wildcard-preference / C05-wildcard-retrieval); the glue between call sites and
-   index is covered by the correspondence check only (cache on vs cache off vs specification, with hit counts). *)
-From EQL Require Import Base Memo_Facts.
+   uncached result of its lookup (the contract).
+   PROVED PART (C05_indexed_full_rows): the same for the CONCRETE index (the model of cache_data.IndexedCache / SeenSet,
+   tied to the code by C20's operation-level correspondence) behind the shape all five call sites of symbolic.py share
+   (coverage check -> replay what retrieval returns; otherwise evaluate, yield, store every row), for every operator whose
+   rows bind every cache key, over ANY history of lookups.
+   MISSING: rows that leave a cache key open put the wildcard into the index; there the retrieval half of the contract is
+   REFUTED for the concrete index (Properties/C20.v, C20_retrieve_refuted; known findings C20-wildcard-preference /
+   C05-wildcard-retrieval).  That each call site of symbolic.py has the modelled shape, and what `yield_when_false` a cached
+   row was recorded under, is covered by the correspondence check only (cache on vs cache off vs specification). *)
+From EQL Require Import Base Memo_Facts IndexedCache IndexedCache_Facts IndexedCache_Sound IndexedMemo_Facts.
 
 Theorem C05_memo_transparent_partial : forall (K R : Type) (keqb : K -> K -> bool),
   (forall a b, keqb a b = true <-> a = b) -> forall (f : K -> R) ks st,
-  Kontract K R keqb f st -> run K R keqb f st ks = map f ks.
+  Kontract K R keqb f st -> Memo_Facts.run K R keqb f st ks = map f ks.
 Proof. exact memo_transparent. Qed.
 Print Assumptions C05_memo_transparent_partial.
 
@@ -21,7 +26,36 @@ Theorem C05_fresh_memo_meets_contract : forall (K R : Type) (keqb : K -> K -> bo
 Proof. exact memo_empty. Qed.
 Print Assumptions C05_fresh_memo_meets_contract.
 
+(* The concrete index.  ks: the cache keys (at least one); rel: the operator as a finite relation over them - every row binds
+   every key ([full]), mentions cache keys only, and no two rows bind the keys alike; [answers L]: what the operator yields,
+   uncached, under the lookup L - its rows that agree with L; [cached_run]: the call site on top of IndexedCache.check /
+   retrieve / insert, started on an empty cache.  For EVERY history of lookups that bind at least one key, every answer of the
+   cached call site is, as a set of (binding over the cache keys, truth flag), the uncached answer. *)
+Theorem C05_indexed_full_rows : forall ks, ks <> [] -> forall rel,
+  (forall b o, In (b, o) rel -> full ks b = true) ->
+  (forall b o, In (b, o) rel -> over ks b = true /\ nonempty b = true) ->
+  NoDup (pats ks rel) ->
+  forall Ls, Forall (fun L => binds_some ks L = true) Ls ->
+  Forall2 (same ks) (cached_run ks rel (init ks) Ls) (map (answers ks rel) Ls).
+Proof. exact cached_transparent. Qed.
+Print Assumptions C05_indexed_full_rows.
+
+(* non-vacuity: a comparator over two variables (keys 1 and 2) with three rows; lookups binding one key are evaluated and stored,
+   the fully bound lookups that follow are covered and served from the index - with the stored flag *)
+Example C05_indexed_nonvacuous :
+  let ks := [1; 2] in
+  let rel := [([(1, 0); (2, 0)], 0); ([(1, 0); (2, 1)], 1); ([(1, 1); (2, 1)], 0)] in
+  let Ls := [[(1, 0)]; [(1, 0); (2, 1)]; [(2, 1)]; [(1, 1); (2, 1)]; [(1, 1); (2, 0)]] in
+  Forall (fun L => binds_some ks L = true) Ls /\ NoDup (pats ks rel) /\
+  map (map snd) (cached_run ks rel (init ks) Ls) = [[0; 1]; [1]; [1; 0]; [0]; []] /\
+  (* the second and the fourth lookup were answered by the index, not by the operator *)
+  fst (ic_check (impl (fst (cached_step ks rel (init ks) [(1, 0)]))) [(1, 0); (2, 1)]) = true.
+Proof.
+  cbv zeta. split; [repeat constructor|]. split; [|split; vm_compute; reflexivity].
+  vm_compute. repeat constructor; cbn; intuition discriminate.
+Qed.
+
 (* non-vacuity: a history with repeated lookups is answered from the memo and agrees with the uncached function *)
 Example C05_nonvacuous :
-  run nat nat Nat.eqb (fun k => k * k) [] [3; 4; 3; 3; 5; 4] = map (fun k => k * k) [3; 4; 3; 3; 5; 4].
+  Memo_Facts.run nat nat Nat.eqb (fun k => k * k) [] [3; 4; 3; 3; 5; 4] = map (fun k => k * k) [3; 4; 3; 3; 5; 4].
 Proof. vm_compute. reflexivity. Qed.
